@@ -120,12 +120,19 @@ def run_rankdef(run, prop, binp, rng, n, codes):
         rhist[code] = rhist.get(code, 0) + 1
         if code in codes and code in RD_TEXT:
             # is the decomposition nalgebra handed back a decomposition of the weighted basis matrix at all?
-            bad_svd = not svd_reconstructs(c, r["steps"][k + 1]["v"], r["steps"][k + 2]["v"])
+            bad_svd = nalgebra_defect(c, r["steps"][k + 1]["v"], r["steps"][k + 2]["v"])
             run.violation("rank-deficient state #%d: %s%s" % (k, RD_TEXT[code], " (the SVD factors returned by nalgebra do not reconstruct the matrix)" if bad_svd else ""),
                           {"case": c, "step": k, "observe": r["steps"][k]["v"], "tables": r["steps"][k + 1]["v"], "svd": r["steps"][k + 2]["v"],
                            "coq_term": t, "svd_is_a_decomposition": not bad_svd},
                           key=("nalgebra-svd-not-a-decomposition" if bad_svd else None))
     return rterms, rhist
+
+
+def nalgebra_defect(case, tables, svd):
+    """attribution to the known finding: the cached factors do not reconstruct W Phi AND they are bit for bit what nalgebra's
+    svd(true, true) returns when the harness calls it directly on W Phi (computed from the model and the supplied weights) —
+    so the library handed the right matrix to the dependency and stored what came back"""
+    return (not svd_reconstructs(case, tables, svd)) and bool(svd) and svd.get("same_as_direct_nalgebra") is True
 
 
 def svd_reconstructs(case, tables, svd):
